@@ -24,11 +24,26 @@ ON_PLANE = 1e-9     # an endpoint this close to a plane lies on it ...
 OFF_PLANE = 1e-3    # ... otherwise it must be at least this far away (general position)
 
 NOT_CARRIED = [
-    "pip_correct: correctness of the winding-number test of _point_in_polygon (with its eta/epsilon "
-    "tolerances, the rotation to the horizontal plane and the special cases of _rotation_matrix) is NOT "
-    "proved; C07_segment_logic is conditional on it for the points actually queried.  It is validated by "
-    "the correspondence run and by the exact-rational half-plane oracle on every generated query -- and it "
-    "is known to FAIL on a set of positive measure (finding ray_through_vertex)",
+    "pip_correct for general polygons: correctness of the winding-number test of _point_in_polygon (with its "
+    "eta/epsilon tolerances, the rotation to the horizontal plane and the general Rodrigues branch of "
+    "_rotation_matrix) is PROVED (a) for axis-aligned rectangular surfaces -- the six wall orientations of a "
+    "shoebox room, all 8 vertex orders (C07_pip_correct_rect, _closed, _horizontal; margin m from the four edge "
+    "lines with eta <= 2 m, sharp by C07_pip_rect_margin_sharp; on the edge lines orthogonal to the ray the test is "
+    "half-open, C07_pip_rect_edge_half_open) -- and for them the segment logic is unconditional "
+    "(C07_segment_logic_rect, _endpoint, _coplanar; needs SqrtLaws and 0 <= epsilon < 1); (b) for triangles on "
+    "axis planes in general position (C07_pip_correct_triangle); and (c) for ANY polygon on an axis plane in "
+    "general position it is reduced to a tolerance-free signed crossing number (C07_winding_general_position, "
+    "C07_pip_general_position: no vertex within eta/2 of the ray's line, crossing sides steeper than epsilon).  "
+    "NOT proved: that the crossing number of a convex polygon with more than 3 vertices is +-1 inside and 0 "
+    "outside (textbook geometry, independent of the code), rotated (non axis-aligned) surfaces and non-unit "
+    "normals; there C07_segment_logic stays conditional on pip_correct_at for the points actually queried.  "
+    "It is validated by the correspondence run and by the exact-rational half-plane oracle on every generated "
+    "query -- and for polygons with a pointed vertex it is known to FAIL on a set of positive measure (finding "
+    "ray_through_vertex, C07_pip_correct_refuted; for an axis-aligned rectangle the ray meets a vertex only from "
+    "points on an edge line, which the margin excludes).  Seen while proving (c), confirmed on /repo, not a "
+    "harness case: a side that crosses the ray's line at an angle below epsilon = 1e-6 rad is skipped by the "
+    "'parallel' gate of _project_to_plane, so interior points of sliver polygons (e.g. (0,0) (2e6,1) (0,2), point "
+    "(1,0.5)) are reported outside",
     "the float gap: C07_symmetric is an identity of exact field arithmetic; on IEEE doubles the two "
     "evaluation orders can differ within rounding of a decision boundary (the harness evaluates both orders "
     "on general-position inputs and demands equal answers)",
